@@ -96,6 +96,26 @@ theorem bvh_eq_exhaustive (o : Ops E Box Ray) (L : Laws o) (k : Nat) (r : Ray) (
     query o r (build o k es) = es.any (o.hit r) := by
   rw [query_eq_any o r _ (tree_box_hit o L k r es).1, items_any_build]
 
+/-- **the explicit-stack traversal of the code is the recursive pre-order query**: for every stack of subtrees, `PreorderIter` +
+    `BVH::intersects` answer "some subtree on the stack is hit" -/
+theorem walk_eq_any (o : Ops E Box Ray) (r : Ray) (st : List (Tree E Box)) :
+    walk o r st = st.any (query o r) := by
+  fun_induction walk o r st with
+  | case1 => rfl
+  | case2 b es st hb he => simp [query, hb, he]
+  | case3 b es st hb he ih => simp [query, hb, he, ih]
+  | case4 b es st hb ih => simp [query, hb, ih]
+  | case5 b l rt st hb ih => simp [query, hb, ih, Bool.or_assoc]
+  | case6 b l rt st hb ih => simp [query, hb, ih]
+
+theorem walk_eq_query (o : Ops E Box Ray) (r : Ray) (t : Tree E Box) : walk o r [t] = query o r t := by
+  rw [walk_eq_any]; simp
+
+/-- hence the code's traversal of the code's tree equals testing every element -/
+theorem walk_eq_exhaustive (o : Ops E Box Ray) (L : Laws o) (k : Nat) (r : Ray) (es : List E) :
+    walk o r [build o k es] = es.any (o.hit r) := by
+  rw [walk_eq_query]; exact bvh_eq_exhaustive o L k r es
+
 /-- a list that fits in a leaf is one leaf holding all of it — in particular the whole input when it
 has at most `k` elements (the defect of the pinned commit: that leaf was dropped) -/
 theorem build_small (o : Ops E Box Ray) (k : Nat) (es : List E) (h : es.length ≤ k) :
